@@ -1,4 +1,17 @@
-(* C10 -- lemmas and proofs. *)
+(* C10 -- lemmas and proofs.
+
+   Plan of the file
+     1. the five defects of the unchanged code as closed computations on the model with the old behaviour
+     2. lists, prefix_of, takeZ/skipZ/advance                                   (lenZ_app ... drop_while_id)
+     3. the start-marker search for the default delimiters is leftmost           (finder_ok, finder_ok_default)
+     4. scanning the fixed tag interiors up to the end delimiter                 (scan_var_body, scan_set_body)
+     5. what the tail action of a tag and trim_leading_whitespace do to a text   (left_phase), lstrip_block
+     6. handle_start_marker for each kind of tag                                 (hsm_var ... hsm_raw, hsm_seg)
+     7. one iteration of the template loop = one text + one tag of the spec      (root_step_text_marker, toks_step)
+     8. induction over the segment list                                          (toks_segs)
+     9. Tokenizer::new versus rule 1 of the specification                        (strip_unparse)
+    10. the search loop over the specified Aho-Corasick enumeration is leftmost  (find_ac_found, finder_ok_all)
+    11. the theorems                                                             (texts_verbatim_proof, no_panic_proof) *)
 From MJ Require Import Common.Base Common.ListLemmas C10.Chars C10.Spec C10.Model C10.Domain.
 
 (* ------------------------------------------------------------------------------------------
@@ -71,6 +84,8 @@ Proof. unfold lenZ. cbn [length]. lia. Qed.
 Lemma lenZ_nonneg {A} (l : list A) : 0 <= lenZ l.
 Proof. unfold lenZ. lia. Qed.
 Lemma lenZ_nil {A} : lenZ (@nil A) = 0. Proof. reflexivity. Qed.
+Lemma lenZ_rev {A} (l : list A) : lenZ (rev l) = lenZ l.
+Proof. unfold lenZ. rewrite rev_length. reflexivity. Qed.
 
 Lemma takeZ_app {A} (a b : list A) : takeZ (lenZ a) (a ++ b) = a.
 Proof.
@@ -819,6 +834,351 @@ Proof.
       unfold lead_of. rewrite orb_true_r. reflexivity.
 Qed.
 
+Definition bol_after (X : seg) : bool := match X with Line _ _ NlNone => false | Line _ _ _ => true | _ => false end.
+Definition seg_ok (d : delims) (X : seg) (Rs : str) : Prop :=
+  match X with
+  | Tag _ _ _ => True
+  | Raw l1 r1 c l2 r2 => raw_content_ok d c (raw_close_src d l2 r2 ++ Rs) = true
+  | Line k t nl => forallb is_blank t = true /\ (nl = NlNone -> Rs = []) /\
+                   (nl = NlCR -> match Rs with x :: _ => (x =? c_lf) = false | [] => True end)
+  | Text _ => False
+  end.
+
+
+(* ========================================================================================== *)
+(* ---------- line statements and line comments ---------- *)
+Definition nl_cond (nl : nlstyle) (Rs : str) : Prop :=
+  (nl = NlNone -> Rs = []) /\ (nl = NlCR -> match Rs with x :: _ => (x =? c_lf) = false | [] => True end).
+
+Lemma skip_nl_line nl Rs : nl_cond nl Rs -> skip_nl fixed (nl_str nl ++ Rs) = (true, lenZ (nl_str nl)).
+Proof.
+  intros [H1 H2]. destruct nl; cbn [nl_str app].
+  - rewrite (H1 eq_refl). reflexivity.
+  - reflexivity.
+  - reflexivity.
+  - specialize (H2 eq_refl). unfold skip_nl. cbn [q_skipnl_swapped fixed]. rewrite Z.eqb_refl.
+    destruct Rs as [|x Rs']; [reflexivity|]. rewrite H2. reflexivity.
+Qed.
+
+Lemma is_blank_hws x : is_blank x = true -> is_hws x = true.
+Proof. unfold is_blank, is_hws, is_ws, is_nl, c_space, c_tab, c_lf, c_cr. lia. Qed.
+Lemma forallb_blank_hws tr : forallb is_blank tr = true -> forallb is_hws tr = true.
+Proof. induction tr; cbn; auto. intros H. apply andb_prop in H as [H1 H2]. rewrite is_blank_hws; auto. Qed.
+
+Lemma nl_head_not_hws nl Rs : nl <> NlNone -> exists x r, nl_str nl ++ Rs = x :: r /\ is_hws x = false /\ is_nl x = true.
+Proof. destruct nl; try congruence; intros _; cbn [nl_str app]; eexists _, _; repeat split; reflexivity. Qed.
+
+(* the end of a line statement: blanks, then the line ending (or the end of the source) *)
+Lemma line_end_check_tail c tr nl Rs : qk c = fixed -> forallb is_blank tr = true -> nl_cond nl Rs ->
+  line_end_check c (tr ++ nl_str nl ++ Rs) = Some (lenZ (tr ++ nl_str nl)).
+Proof.
+  intros Hq Hb Hc. unfold line_end_check. rewrite Hq.
+  assert (Hd : drop_while is_hws (tr ++ nl_str nl ++ Rs) = nl_str nl ++ Rs).
+  { rewrite drop_while_app_all by (apply forallb_blank_hws; auto).
+    destruct nl; [destruct Hc as [H1 _]; rewrite (H1 eq_refl); reflexivity|..]; reflexivity. }
+  rewrite Hd, skip_nl_line by auto. f_equal. rewrite !lenZ_app. lia.
+Qed.
+
+(* inside the statement: a character that is neither blank nor a newline follows the blanks *)
+Lemma line_end_check_none c (k : str) y l : qk c = fixed -> forallb is_hws k = true -> is_hws y = false -> is_nl y = false ->
+  line_end_check c (k ++ y :: l) = None.
+Proof.
+  intros Hq Hk Hy Hn. unfold line_end_check. rewrite Hq.
+  rewrite drop_while_app_all by auto. cbn [drop_while]. rewrite Hy.
+  unfold skip_nl. cbn [q_skipnl_swapped fixed]. unfold is_nl in Hn. apply orb_false_elim in Hn as [Hn1 Hn2].
+  rewrite Hn2, Hn1. reflexivity.
+Qed.
+
+Ltac lec_none Hq := cbn [lec];
+  first [ apply (line_end_check_none _ [] _ _ Hq); reflexivity
+        | apply (line_end_check_none _ [32] _ _ Hq); reflexivity ].
+Ltac cal_ws Hq := cbn [char_action]; apply TA_ws; [lec_none Hq | reflexivity].
+Ltac cal_plain Hq := cbn [char_action]; rewrite TA_plain; [ reflexivity | lec_none Hq | reflexivity | reflexivity ].
+
+Lemma scan_line_set c rb tr nl Rs off : qk c = fixed -> forallb is_blank tr = true -> nl_cond nl Rs ->
+  scan c SLine Normal 0 rb (body_line_set ++ tr ++ nl_str nl ++ Rs) off =
+  ScEnd (rev (body_line_set ++ tr ++ nl_str nl) ++ rb) Rs (off + lenZ (body_line_set ++ tr ++ nl_str nl)) TNone.
+Proof.
+  intros Hq Hb Hc. unfold body_line_set. cbn [app].
+  erewrite scan_step by (cal_ws Hq).
+  erewrite scan_step by (cal_plain Hq).     (* s *)
+  erewrite scan_step by reflexivity.        (* e *)
+  erewrite scan_step by reflexivity.        (* t *)
+  erewrite scan_step by (cal_ws Hq).
+  erewrite scan_step by (cal_plain Hq).     (* q *)
+  erewrite scan_step by (cal_ws Hq).
+  erewrite scan_step by (cal_plain Hq).     (* = *)
+  erewrite scan_step by (cal_ws Hq).
+  (* what follows the number is blanks + line ending, or nothing *)
+  destruct (tr ++ nl_str nl ++ Rs) as [|a l] eqn:El; erewrite scan_step by (cal_plain Hq).     (* 1 *)
+  - (* end of the source *)
+    assert (tr = [] /\ nl = NlNone /\ Rs = []) as (-> & -> & ->).
+    { destruct tr; [|discriminate]. destruct nl; try discriminate. destruct Rs; try discriminate. auto. }
+    cbn [scan nl_str app]. f_equal. len_norm. lia.
+  - assert (Ha : char_action c SLine (InNum 1) (0 + 0 + 0 + 0 + 0 + 0 + 0 + 0 + 0 + 0) (a :: l) = AEnd (lenZ (tr ++ nl_str nl)) TNone).
+    { assert (Hcls : is_digit a = false /\ (is_alpha a || (a =? 95) || (a =? 46) || (128 <=? a)) = false).
+      { destruct tr as [|t0 tr'].
+        - destruct nl; cbn [nl_str app] in El; [destruct Hc as [H1 _]; rewrite (H1 eq_refl) in El; discriminate|..];
+            inversion El; subst; split; reflexivity.
+        - cbn [app] in El. inversion El; subst. cbn [forallb] in Hb. apply andb_prop in Hb as [Hb _].
+          unfold is_blank, c_space, c_tab in Hb. unfold is_digit, is_alpha. split; lia. }
+      destruct Hcls as [Hd Ha]. cbn [char_action]. rewrite Hd, Ha.
+      apply TA_line_end. rewrite <- El. apply line_end_check_tail; auto. }
+    rewrite (scan_end _ _ _ _ _ _ _ _ _ _ Ha). rewrite <- El.
+    replace (tr ++ nl_str nl ++ Rs) with ((tr ++ nl_str nl) ++ Rs) by (rewrite <- app_assoc; reflexivity).
+    rewrite advance_app by reflexivity. f_equal.
+    + list_norm. reflexivity.
+    + len_norm. lia.
+Qed.
+
+(* ---------- handle_start_marker for a line statement ---------- *)
+Lemma hsm_line_stmt c rbm tr nl Rs offm : qk c = fixed -> forallb is_blank tr = true -> nl_cond nl Rs ->
+  handle_start_marker c MkLineStmt (lenZ (line_s (dl c)) + ws_len WDefault)
+     (rbm, line_src (dl c) LStmt tr nl ++ Rs, offm) =
+  ([IBlock offm], cont_tail c (Some (ULine LStmt nl)) (rev (line_src (dl c) LStmt tr nl) ++ rbm, Rs, offm + lenZ (line_src (dl c) LStmt tr nl))).
+Proof.
+  intros Hq Hb Hc. unfold handle_start_marker, line_src. cbn [ws_len]. rewrite Z.add_0_r.
+  rewrite <- !app_assoc. rewrite advance_app by reflexivity.
+  rewrite scan_line_set by auto. rewrite after_scan_end. unfold cont_tail. cbn [tail_of].
+  match goal with |- (_, cont_of (apply_tail _ _ ?P1)) = (_, cont_of (apply_tail _ _ ?P2)) => assert (E : P1 = P2) end.
+  { f_equal; [f_equal|]; [list_norm; reflexivity | len_norm; lia]. }
+  rewrite E. reflexivity.
+Qed.
+
+(* ---------- handle_start_marker for a line comment ---------- *)
+Lemma hsm_line_comment c rbm tr nl Rs offm : qk c = fixed -> forallb is_blank tr = true -> nl_cond nl Rs ->
+  handle_start_marker c MkLineComment (lenZ (line_c (dl c)) + ws_len WDefault)
+     (rbm, line_src (dl c) LComment tr nl ++ Rs, offm) =
+  ([], cont_tail c (Some (ULine LComment nl)) (rev (line_src (dl c) LComment tr nl) ++ rbm, Rs, offm + lenZ (line_src (dl c) LComment tr nl))).
+Proof.
+  intros Hq Hb Hc. unfold handle_start_marker, line_src. cbn [ws_len]. rewrite Z.add_0_r.
+  rewrite <- !app_assoc. rewrite skipZ_app.
+  assert (Hd : drop_while (fun x => negb (is_nl x)) (body_line_comment ++ tr ++ nl_str nl ++ Rs) = nl_str nl ++ Rs).
+  { unfold body_line_comment. cbn [app drop_while]. change (negb (is_nl 32)) with true. change (negb (is_nl 99)) with true. cbv iota.
+    rewrite drop_while_app_all.
+    - destruct nl; [destruct Hc as [H1 _]; rewrite (H1 eq_refl); reflexivity|..]; reflexivity.
+    - rewrite forallb_forall in *. intros x Hx. rewrite (is_blank_not_nl x); auto. }
+  rewrite Hd, Hq, skip_nl_line by auto.
+  replace (lenZ (line_c (dl c)) + (lenZ (body_line_comment ++ tr ++ nl_str nl ++ Rs) - lenZ (nl_str nl ++ Rs)) + lenZ (nl_str nl))
+    with (lenZ (line_c (dl c) ++ body_line_comment ++ tr ++ nl_str nl)) by (len_norm; lia).
+  replace (line_c (dl c) ++ body_line_comment ++ tr ++ nl_str nl ++ Rs)
+    with ((line_c (dl c) ++ body_line_comment ++ tr ++ nl_str nl) ++ Rs) by (rewrite <- !app_assoc; reflexivity).
+  rewrite advance_app by reflexivity. unfold cont_tail, cont_of. cbn [tail_of apply_tail fst snd]. reflexivity.
+Qed.
+
+(* after a line statement / comment with a line ending the next position is at the start of a line *)
+Lemma line_after d k tr nl rb : nl <> NlNone ->
+  scan_line_start (rev (line_src d k tr nl) ++ rb) = true /\ line_start_simple (rev (line_src d k tr nl) ++ rb) = true.
+Proof.
+  intros Hn. assert (E : exists x r, rev (line_src d k tr nl) = x :: r /\ (x = c_lf \/ x = c_cr)).
+  { destruct k; unfold line_src; rewrite !rev_app_distr; destruct nl; try congruence; cbn [nl_str rev app]; eexists _, _; split; try reflexivity; auto. }
+  destruct E as (x & r & E & Hx). rewrite E. cbn [app scan_line_start line_start_simple].
+  destruct Hx as [-> | ->]; split; reflexivity.
+Qed.
+
+
+(* ========================================================================================== *)
+(* ---------- skip_basic_tag on a raw / endraw tag ---------- *)
+Lemma sbt_tail (be : str) (r : mark) (R : str) : end_delim_ok be = true ->
+  drop_while is_ascii_ws (mark_str r ++ be ++ R) = mark_str r ++ be ++ R /\
+  (match mark_str r ++ be ++ R with
+   | c :: r' => if c =? c_minus then (WRemove, r') else if c =? c_plus then (WPreserve, r') else (WDefault, mark_str r ++ be ++ R)
+   | [] => (WDefault, mark_str r ++ be ++ R)
+   end) = (ws_of_m r, be ++ R).
+Proof.
+  intros He. destruct (end_delim_ok_inv _ He) as (c0 & e' & Ee & Hw & Hm & Hp & _).
+  destruct r; cbn [mark_str app ws_of_m].
+  - rewrite Ee. cbn [app drop_while]. rewrite Hw.
+    replace (c0 =? c_minus) with false by (symmetry; apply Z.eqb_neq; auto).
+    replace (c0 =? c_plus) with false by (symmetry; apply Z.eqb_neq; auto). split; reflexivity.
+  - split; reflexivity.
+  - split; reflexivity.
+Qed.
+
+Lemma skip_basic_tag_raw be (r : mark) R : end_delim_ok be = true ->
+  skip_basic_tag (body_raw ++ mark_str r ++ be ++ R) s_raw be false = Some (lenZ (body_raw ++ mark_str r ++ be), ws_of_m r).
+Proof.
+  intros He. destruct (sbt_tail be r R He) as [H1 H2].
+  unfold skip_basic_tag, body_raw, s_raw. cbn [app drop_while].
+  change (is_ascii_ws 32) with true. change (is_ascii_ws 114) with false. cbv iota.
+  unfold strip_prefix. cbn [prefix_of]. rewrite !Z.eqb_refl. cbn [andb].
+  change (lenZ [114; 97; 119]) with 3.
+  replace (skipZ 3 (114 :: 97 :: 119 :: 32 :: mark_str r ++ be ++ R)) with (32 :: mark_str r ++ be ++ R)
+    by (symmetry; apply (skipZ_app [114; 97; 119])).
+  cbn [drop_while]. change (is_ascii_ws 32) with true. cbv iota.
+  rewrite H1, H2. rewrite prefix_of_app, skipZ_app. f_equal. f_equal. len_norm. lia.
+Qed.
+
+Lemma skip_basic_tag_endraw be (l r : mark) R : end_delim_ok be = true ->
+  skip_basic_tag (mark_str l ++ body_endraw ++ mark_str r ++ be ++ R) s_endraw be true =
+    Some (lenZ (mark_str l ++ body_endraw ++ mark_str r ++ be), ws_of_m r).
+Proof.
+  intros He. destruct (sbt_tail be r R He) as [H1 H2].
+  assert (E : (if true then match mark_str l ++ body_endraw ++ mark_str r ++ be ++ R with
+                           | c :: r0 => if (c =? c_minus) || (c =? c_plus) then r0 else mark_str l ++ body_endraw ++ mark_str r ++ be ++ R
+                           | [] => mark_str l ++ body_endraw ++ mark_str r ++ be ++ R end
+               else mark_str l ++ body_endraw ++ mark_str r ++ be ++ R) = body_endraw ++ mark_str r ++ be ++ R).
+  { destruct l; reflexivity. }
+  unfold skip_basic_tag. rewrite E. unfold body_endraw, s_endraw. cbn [app drop_while].
+  change (is_ascii_ws 32) with true. change (is_ascii_ws 101) with false. cbv iota.
+  unfold strip_prefix. cbn [prefix_of]. rewrite !Z.eqb_refl. cbn [andb].
+  change (lenZ [101; 110; 100; 114; 97; 119]) with 6.
+  replace (skipZ 6 (101 :: 110 :: 100 :: 114 :: 97 :: 119 :: 32 :: mark_str r ++ be ++ R)) with (32 :: mark_str r ++ be ++ R)
+    by (symmetry; apply (skipZ_app [101; 110; 100; 114; 97; 119])).
+  cbn [drop_while]. change (is_ascii_ws 32) with true. cbv iota.
+  rewrite H1, H2. rewrite prefix_of_app, skipZ_app. f_equal. f_equal. len_norm. destruct l; cbn [mark_str]; len_norm; lia.
+Qed.
+
+(* ---------- raw_search walks over well-formed raw content ---------- *)
+Lemma raw_search_unfold c ws rb0 acc l off0 wait :
+  raw_search c ws rb0 acc l off0 wait =
+  let here := match wait with
+              | O => if prefix_of (block_s (dl c)) l then Some (raw_finish c ws rb0 acc l off0) else None
+              | S _ => None
+              end in
+  match here with
+  | Some (Some x) => Some x
+  | _ => match l with
+         | [] => None
+         | a :: r => raw_search c ws rb0 (a :: acc) r off0
+                       (match here, wait with Some None, _ => pred (length (block_s (dl c))) | _, S w => w | _, O => O end)
+         end
+  end.
+Proof. destruct l; reflexivity. Qed.
+
+Lemma raw_finish_none c ws rb0 acc l off0 :
+  skip_basic_tag (skipZ (lenZ (block_s (dl c))) l) s_endraw (block_e (dl c)) true = None ->
+  raw_finish c ws rb0 acc l off0 = None.
+Proof. intros H. unfold raw_finish. rewrite H. reflexivity. Qed.
+
+Lemma raw_search_content c ws rb0 off0 F : forall content acc wait,
+  raw_content_ok (dl c) content F = true -> (wait <= length content)%nat ->
+  raw_search c ws rb0 acc (content ++ F) off0 wait = raw_search c ws rb0 (rev content ++ acc) F off0 0.
+Proof.
+  induction content as [|a r IH]; intros acc wait Hok Hw.
+  - cbn [length] in Hw. assert (wait = 0%nat) by lia. subst. reflexivity.
+  - cbn [raw_content_ok] in Hok. apply andb_prop in Hok as [Hhere Hok].
+    rewrite raw_search_unfold. cbn [app].
+    destruct wait as [|w].
+    + destruct (prefix_of (block_s (dl c)) (a :: r ++ F)) eqn:Ep.
+      * cbn [app] in Hhere. rewrite Ep in Hhere. apply andb_prop in Hhere as [Hn Hl].
+        assert (Hnone : skip_basic_tag (skipZ (lenZ (block_s (dl c))) (a :: r ++ F)) s_endraw (block_e (dl c)) true = None).
+        { destruct (skip_basic_tag _ _ _ _); [discriminate|reflexivity]. }
+        rewrite (raw_finish_none _ _ _ _ _ _ Hnone). cbv beta iota zeta.
+        rewrite IH; auto.
+        -- cbn [rev]. rewrite <- app_assoc. reflexivity.
+        -- unfold lenZ in Hl. cbn [length] in Hl. lia.
+      * cbv beta iota zeta. rewrite IH; auto; [cbn [rev]; rewrite <- app_assoc; reflexivity | lia].
+    + cbv beta iota zeta. rewrite IH; auto; [cbn [rev]; rewrite <- app_assoc; reflexivity | cbn [length] in Hw; lia].
+Qed.
+
+Definition ends_nonws_P15 (s : str) : Prop := exists x r, rev s = x :: r /\ is_ws x = false.
+
+(* ---------- the rules applied to the raw content ---------- *)
+Lemma raw_trim_is_strip_one_newline (content : str) :
+  (let a := match content with x :: t => if x =? c_cr then t else content | [] => content end in
+   match a with x :: t => if x =? c_lf then t else a | [] => a end) = strip_one_newline content.
+Proof.
+  destruct content as [|x t]; cbn; auto.
+  destruct (x =? c_cr) eqn:E1.
+  - destruct t as [|y t']; auto.
+  - destruct (x =? c_lf); reflexivity.
+Qed.
+
+Lemma left_rule_suffix st prev t : exists k, t = k ++ left_rule st prev t.
+Proof.
+  destruct prev as [[s|k l r|k nl]|]; cbn [left_rule]; try (exists []; reflexivity).
+  destruct (is_minus r).
+  - destruct (drop_while_split is_ws t) as (k' & Hk & _). exists k'. exact Hk.
+  - destruct (_ && _); [|exists []; reflexivity].
+    destruct t as [|a t']; [exists []; reflexivity|]. cbn [strip_one_newline].
+    destruct (a =? c_cr).
+    + destruct t' as [|b t'']; [exists [a]; reflexivity|]. destruct (b =? c_lf); [exists [a; b] | exists [a]]; reflexivity.
+    + destruct (a =? c_lf); [exists [a] | exists []]; reflexivity.
+Qed.
+
+Lemma hsm_raw c rbm (l1 r1 : mark) content (l2 r2 : mark) Rs offm :
+  qk c = fixed -> wf_delims (dl c) = true ->
+  raw_content_ok (dl c) content (raw_close_src (dl c) l2 r2 ++ Rs) = true ->
+  exists chunk,
+  handle_start_marker c MkBlock (lenZ (block_s (dl c)) + ws_len (ws_of_m l1))
+     (rbm, unparse_seg (dl c) (Raw l1 r1 content l2 r2) ++ Rs, offm) =
+  ([IText chunk], cont_tail c (Some (UTag URawClose l2 r2))
+                    (rev (unparse_seg (dl c) (Raw l1 r1 content l2 r2)) ++ rbm, Rs, offm + lenZ (unparse_seg (dl c) (Raw l1 r1 content l2 r2))))
+  /\ chunk = right_rule (st_of (wsc c)) (Some (UTag URawClose l2 r2)) (at_line_start false content)
+                        (left_rule (st_of (wsc c)) (Some (UTag URawOpen l1 r1)) content).
+Proof.
+  intros Hq Hwf Hok.
+  assert (Hbe : end_delim_ok (block_e (dl c)) = true).
+  { unfold wf_delims in Hwf. repeat (apply andb_prop in Hwf as [Hwf ?]). auto. }
+  set (BS := block_s (dl c)) in *. set (BE := block_e (dl c)) in *.
+  set (opn := BS ++ mark_str l1 ++ body_raw ++ mark_str r1 ++ BE).
+  set (cls := BS ++ mark_str l2 ++ body_endraw ++ mark_str r2 ++ BE).
+  assert (Esrc : unparse_seg (dl c) (Raw l1 r1 content l2 r2) = opn ++ content ++ cls).
+  { cbn [unparse_seg]. unfold raw_open_src, raw_close_src. reflexivity. }
+  rewrite Esrc. eexists. split; [|reflexivity].
+  unfold handle_start_marker. rewrite ws_len_mark.
+  replace ((opn ++ content ++ cls) ++ Rs) with ((BS ++ mark_str l1) ++ body_raw ++ mark_str r1 ++ BE ++ content ++ cls ++ Rs)
+    by (unfold opn; rewrite <- !app_assoc; reflexivity).
+  rewrite skipZ_app_n by (rewrite lenZ_app; reflexivity).
+  fold BE. rewrite skip_basic_tag_raw by auto.
+  replace ((BS ++ mark_str l1) ++ body_raw ++ mark_str r1 ++ BE ++ content ++ cls ++ Rs) with (opn ++ content ++ cls ++ Rs)
+    by (unfold opn; rewrite <- !app_assoc; reflexivity).
+  rewrite advance_app by (unfold opn; len_norm; lia).
+  (* the search for the endraw tag *)
+  replace (raw_close_src (dl c) l2 r2 ++ Rs) with (cls ++ Rs) in Hok by reflexivity.
+  rewrite (raw_search_content c _ _ _ (cls ++ Rs) content [] 0 Hok (Nat.le_0_l _)). rewrite app_nil_r.
+  rewrite raw_search_unfold.
+  assert (Hpre : prefix_of (block_s (dl c)) (cls ++ Rs) = true).
+  { unfold cls. fold BS. rewrite <- !app_assoc. apply prefix_of_app. }
+  rewrite Hpre.
+  (* raw_finish at the endraw tag *)
+  unfold raw_finish. fold BS BE.
+  replace (skipZ (lenZ BS) (cls ++ Rs)) with (mark_str l2 ++ body_endraw ++ mark_str r2 ++ BE ++ Rs)
+    by (unfold cls; rewrite <- !app_assoc; symmetry; apply skipZ_app).
+  rewrite skip_basic_tag_endraw by auto. cbv beta iota zeta.
+  rewrite rev_involutive.
+  replace (ws_of (hd_error (mark_str l2 ++ body_endraw ++ mark_str r2 ++ BE ++ Rs))) with (ws_of_m l2) by (destruct l2; reflexivity).
+  rewrite Hq. cbn [q_raw_lstrip fixed].
+  (* the position after the endraw tag *)
+  replace (cls ++ Rs) with ((BS ++ mark_str l2 ++ body_endraw ++ mark_str r2 ++ BE) ++ Rs) by reflexivity.
+  rewrite advance_app by (len_norm; lia).
+  rewrite tail_ws_apply. unfold cont_tail.
+  replace (tail_of (Some (UTag URawClose l2 r2))) with (tail_of_ws (ws_of_m r2)) by (destruct r2; reflexivity).
+  f_equal.
+  - (* the chunk *)
+    f_equal. f_equal.
+    set (st := st_of (wsc c)).
+    assert (Hl : (match ws_of_m r1 with
+                  | WDefault => if trim (wsc c) then
+                                  (let a := match content with x :: t => if x =? c_cr then t else content | [] => content end in
+                                   match a with x :: t => if x =? c_lf then t else a | [] => a end) else content
+                  | WRemove => drop_while is_ws content
+                  | WPreserve => content end) = left_rule st (Some (UTag URawOpen l1 r1)) content).
+    { rewrite raw_trim_is_strip_one_newline. destruct r1; cbn [ws_of_m left_rule is_minus is_plus block_like negb andb st st_of trim_blocks];
+        try reflexivity. rewrite andb_true_r. reflexivity. rewrite andb_false_r. reflexivity. }
+    cbv zeta in Hl. rewrite Hl. set (t1 := left_rule st (Some (UTag URawOpen l1 r1)) content).
+    assert (Hals : scan_line_start (rev content ++ rev opn ++ rbm) = at_line_start false content).
+    { rewrite scan_line_start_text. f_equal.
+      assert (Hen : ends_nonws_P15 opn).
+      { unfold ends_nonws_P15, opn. destruct (end_delim_ok_inv _ Hbe) as (_ & _ & _ & _ & _ & _ & _ & x & r & E & Hx).
+        exists x, (r ++ rev (BS ++ mark_str l1 ++ body_raw ++ mark_str r1)).
+        rewrite !app_assoc, rev_app_distr. fold BE. rewrite E. split; auto. }
+      destruct Hen as (x & r & E & Hx). rewrite E. cbn [app scan_line_start].
+      assert (Hn : is_nl x = false) by (unfold is_nl, c_lf, c_cr; unfold is_ws in Hx; lia).
+      rewrite Hn, Hx. reflexivity. }
+    unfold should_lstrip. cbn [q_line_blank fixed]. rewrite orb_false_r, andb_true_r. rewrite Hals.
+    destruct l2; cbn [ws_of_m right_rule is_minus is_plus block_like negb andb st st_of lstrip_blocks]; try reflexivity.
+    + destruct (lstrip_b (wsc c)), (at_line_start false content) eqn:Ea; cbn [andb]; try reflexivity.
+      destruct (left_rule_suffix st (Some (UTag URawOpen l1 r1)) content) as (k & Hk).
+      apply (lstrip_block_at_line_start false k t1); auto. unfold t1. rewrite <- Hk. exact Ea.
+    + destruct (lstrip_b (wsc c)), (at_line_start false content); reflexivity.
+  - (* the continuation *)
+    match goal with |- cont_of (apply_tail _ _ ?P1) = cont_of (apply_tail _ _ ?P2) => assert (E : P1 = P2) end.
+    { f_equal; [f_equal|]; [unfold opn, cls; list_norm; reflexivity | unfold opn, cls; len_norm; rewrite ?lenZ_rev; lia]. }
+    rewrite E. reflexivity.
+Qed.
+
 
 (* ========================================================================================== *)
 Lemma wf_delims_inv d : wf_delims d = true ->
@@ -836,9 +1196,9 @@ Lemma view_text_item s : view (text_item s) = emit_text s.
 Proof. destruct s; reflexivity. Qed.
 
 (* the handling of one non-text segment *)
-Definition supported (X : seg) : Prop := match X with Tag _ _ _ => True | _ => False end.
+Definition supported (X : seg) : Prop := match X with Text _ => False | _ => True end.
 
-Lemma hsm_seg c X Rs rbm offm : qk c = fixed -> wf_delims (dl c) = true -> supported X ->
+Lemma hsm_seg c X Rs rbm offm : qk c = fixed -> wf_delims (dl c) = true -> supported X -> seg_ok (dl c) X Rs ->
   exists its,
     handle_start_marker c (seg_marker X)
         (lenZ (marker_pat (dl c) (seg_marker X)) + ws_len (mk_ws (seg_marker X) (seg_rest (dl c) X ++ Rs)))
@@ -846,15 +1206,25 @@ Lemma hsm_seg c X Rs rbm offm : qk c = fixed -> wf_delims (dl c) = true -> suppo
     = (its, cont_tail c (Some (last_unit X)) (rev (unparse_seg (dl c) X) ++ rbm, Rs, offm + lenZ (unparse_seg (dl c) X)))
     /\ view its = seg_items (st_of (wsc c)) X.
 Proof.
-  intros Hq Hwf Hs. destruct (wf_delims_inv _ Hwf) as (_ & Hbe & Hve & Hce & Hcc & _ & _).
+  intros Hq Hwf Hs Hok. destruct (wf_delims_inv _ Hwf) as (_ & Hbe & Hve & Hce & Hcc & _ & _).
   destruct X as [t|k l r|l1 r1 c0 l2 r2|k t nl]; cbn [supported] in Hs; try contradiction.
-  destruct k; cbn [seg_marker marker_pat seg_rest unparse_seg last_unit seg_items ukind_of].
-  - rewrite <- !app_assoc. rewrite mk_ws_mark by (try congruence; eexists; reflexivity).
-    eexists. split; [apply hsm_var; auto|reflexivity].
-  - rewrite <- !app_assoc. rewrite mk_ws_mark by (try congruence; eexists; reflexivity).
-    eexists. split; [apply hsm_block; auto|reflexivity].
-  - rewrite <- !app_assoc. rewrite mk_ws_mark by (try congruence; eexists; reflexivity).
-    eexists. split; [apply hsm_comment; auto|reflexivity].
+  - destruct k; cbn [seg_marker marker_pat seg_rest unparse_seg last_unit seg_items ukind_of].
+    + rewrite <- !app_assoc. rewrite mk_ws_mark by (try congruence; eexists; reflexivity).
+      eexists. split; [apply hsm_var; auto|reflexivity].
+    + rewrite <- !app_assoc. rewrite mk_ws_mark by (try congruence; eexists; reflexivity).
+      eexists. split; [apply hsm_block; auto|reflexivity].
+    + rewrite <- !app_assoc. rewrite mk_ws_mark by (try congruence; eexists; reflexivity).
+      eexists. split; [apply hsm_comment; auto|reflexivity].
+  - cbn [seg_ok] in Hok. cbn [seg_marker marker_pat seg_rest last_unit seg_items].
+    rewrite <- !app_assoc. rewrite mk_ws_mark by (try congruence; eexists; reflexivity).
+    destruct (hsm_raw c rbm l1 r1 c0 l2 r2 Rs offm Hq Hwf Hok) as (chunk & H1 & H2).
+    exists [IText chunk]. split; [exact H1|]. rewrite H2. destruct (right_rule _ _ _ _); reflexivity.
+  - cbn [seg_ok] in Hok. destruct Hok as (Hb & Hn1 & Hn2).
+    assert (Hc : nl_cond nl Rs) by (split; auto).
+    destruct k; cbn [seg_marker marker_pat seg_rest unparse_seg last_unit seg_items mk_ws].
+    + eexists. split; [apply hsm_line_stmt; auto|reflexivity].
+    + change (ws_of (hd_error ((body_line_comment ++ t ++ nl_str nl) ++ Rs))) with WDefault.
+      eexists. split; [apply hsm_line_comment; auto|reflexivity].
 Qed.
 
 
@@ -914,16 +1284,6 @@ Qed.
 
 
 (* ========================================================================================== *)
-Definition bol_after (X : seg) : bool := match X with Line _ _ NlNone => false | Line _ _ _ => true | _ => false end.
-Definition seg_ok (d : delims) (X : seg) (Rs : str) : Prop :=
-  match X with
-  | Tag _ _ _ => True
-  | Raw l1 r1 c l2 r2 => raw_content_ok d c (raw_close_src d l2 r2 ++ Rs) = true
-  | Line k t nl => forallb is_blank t = true /\ (nl = NlNone -> Rs = []) /\
-                   (nl = NlCR -> match Rs with x :: _ => (x =? c_lf) = false | [] => True end)
-  | Text _ => False
-  end.
-
 Lemma in_patterns_tag d k : In (tag_start d k, match k with KVar => MkVar | KBlock => MkBlock | KComment => MkComment end) (patterns d).
 Proof. unfold patterns. destruct k; cbn; auto. Qed.
 
@@ -975,8 +1335,36 @@ Proof.
   cbn [unparse_seg bol_after]. apply (last_nonws_scan _ rb x r0); auto.
 Qed.
 
+Lemma raw_ends_nonws d l1 r1 c l2 r2 : wf_delims d = true -> ends_nonws (unparse_seg d (Raw l1 r1 c l2 r2)).
+Proof.
+  intros Hwf. destruct (wf_delims_inv _ Hwf) as (_ & Hbe & _).
+  cbn [unparse_seg]. unfold raw_close_src. repeat apply ends_nonws_app.
+  destruct (end_delim_ok_inv _ Hbe) as (_ & _ & _ & _ & _ & _ & _ & H). exact H.
+Qed.
+
+Lemma after_ok_all d bol X S : wf_delims d = true -> is_text X = false -> wf_segs d bol false (X :: S) = true -> after_ok d X S.
+Proof.
+  intros Hwf Ht Hw. destruct X as [t|k l r|l1 r1 c l2 r2|k tr nl]; cbn [is_text] in Ht; try discriminate.
+  - apply after_ok_tag; auto.
+  - right. intros rb. destruct (raw_ends_nonws d l1 r1 c l2 r2 Hwf) as (x & r0 & E & Hx).
+    cbn [bol_after]. apply (last_nonws_scan _ rb x r0); auto.
+  - destruct nl.
+    + left. cbn [wf_segs] in Hw. apply andb_prop in Hw as [Hw _]. apply andb_prop in Hw as [Hw _]. apply andb_prop in Hw as [_ Hw].
+      destruct S; [reflexivity|discriminate].
+    + right. intros rb. cbn [unparse_seg bol_after]. apply line_after. discriminate.
+    + right. intros rb. cbn [unparse_seg bol_after]. apply line_after. discriminate.
+    + right. intros rb. cbn [unparse_seg bol_after]. apply line_after. discriminate.
+Qed.
+
 
 (* ========================================================================================== *)
+Lemma seg_src_nonempty d X : is_text X = false -> start_delim_ok (marker_pat d (seg_marker X)) = true ->
+  (0 < length (unparse_seg d X))%nat.
+Proof.
+  intros Ht Hs. rewrite seg_src_split by auto. rewrite app_length.
+  destruct (marker_pat d (seg_marker X)); [discriminate|]. cbn [length]. apply Nat.lt_0_succ.
+Qed.
+
 Section Main.
 Variable c : cfg.
 Hypothesis HF : finder_ok (dl c).
@@ -993,7 +1381,6 @@ Hypothesis hsm_all : forall X Rs rbm offm, is_text X = false -> supported X -> s
         (rbm, unparse_seg d X ++ Rs, offm)
     = (its, cont_tail c (Some (last_unit X)) (rev (unparse_seg d X) ++ rbm, Rs, offm + lenZ (unparse_seg d X)))
     /\ view its = seg_items st X.
-Hypothesis after_all : forall X S, is_text X = false -> supported X -> seg_ok d X (unparse d S) -> after_ok d X S.
 
 Definition result_ok (fuel : nat) (prev : option unit_) (rb : str) (off : Z) (src : str) (expect : list eitem) : Prop :=
   exists its, (let '(p1, tl) := apply_tail c (tail_of prev) (rb, src, off) in toks fuel c p1 tl) = (its, FOk) /\ view its = expect.
@@ -1038,7 +1425,7 @@ Proof.
   (* the rest of the template *)
   set (rb' := rev (D ++ seg_rest d X) ++ rev t ++ rb).
   assert (Hafter : S = [] \/ scan_line_start rb' = bol_after X /\ line_start_simple rb' = bol_after X).
-  { destruct (after_all X S Ht Hsup Hok) as [E|H]; [left; exact E|right].
+  { destruct (after_ok_all d _ X S Hwf Ht Hw) as [E|H]; [left; exact E|right].
     unfold rb', D, mk. rewrite <- (seg_src_split d X Ht). apply H. }
   assert (HwS' : wf_segs d (line_start_simple rb') false S = true).
   { destruct Hafter as [E|[_ E]]; [rewrite E; reflexivity | rewrite E; exact HwS]. }
@@ -1110,14 +1497,13 @@ Proof.
            { destruct X2; try discriminate; reflexivity. }
            rewrite <- E. exact Hw3.
         -- intros prev' rb' off' Hp' Hw' Hb'. apply (IHn S2); auto.
-           ++ cbn [length] in Hlen. lia.
+           ++ cbn [length] in Hlen. clear - Hlen. lia.
            ++ destruct Hb' as [E|[E _]]; [left; exact E|right; exact E].
            ++ cbn [unparse] in Hfuel. rewrite !app_length in Hfuel.
-              assert (0 < length (unparse_seg d X2))%nat.
-              { rewrite seg_src_split by auto. rewrite app_length.
-                destruct (wf_nontext_inv d _ _ X2 S2 Et2 Hw3) as (Hin & _).
-                pose proof (start_ok_of_in _ Hin) as Hs. fold d. destruct (marker_pat d (seg_marker X2)); [discriminate|cbn; lia]. }
-              lia.
+              assert (Hpos : (0 < length (unparse_seg d X2))%nat).
+              { apply seg_src_nonempty; auto. destruct (wf_nontext_inv d _ _ X2 S2 Et2 Hw3) as (Hin & _).
+                apply (start_ok_of_in _ Hin). }
+              clear - Hfuel Hpos. cbn [unparse_seg] in Hfuel. lia.
     + (* a tag without text before it *)
       destruct HsX1 as [HsX1|HsX1]; [congruence|].
       replace (unparse d (X1 :: S1)) with ([] ++ unparse d (X1 :: S1)) by reflexivity.
@@ -1129,14 +1515,13 @@ Proof.
         by (rewrite left_rule_nil, right_rule_nil; reflexivity).
       apply toks_step; auto.
       * intros prev' rb' off' Hp' Hw' Hb'. apply (IHn S1); auto.
-        -- cbn [length] in Hlen. lia.
+        -- cbn [length] in Hlen. clear - Hlen. lia.
         -- destruct Hb' as [E|[E _]]; [left; exact E|right; exact E].
         -- cbn [unparse] in Hfuel. rewrite !app_length in Hfuel.
-           assert (0 < length (unparse_seg d X1))%nat.
-           { rewrite seg_src_split by auto. rewrite app_length.
-             destruct (wf_nontext_inv d _ _ X1 S1 Et1 Hw) as (Hin & _).
-             pose proof (start_ok_of_in _ Hin) as Hs. fold d. destruct (marker_pat d (seg_marker X1)); [discriminate|cbn; lia]. }
-           lia.
+           assert (Hpos : (0 < length (unparse_seg d X1))%nat).
+           { apply seg_src_nonempty; auto. destruct (wf_nontext_inv d _ _ X1 S1 Et1 Hw) as (Hin & _).
+             apply (start_ok_of_in _ Hin). }
+           clear - Hfuel Hpos. lia.
 Qed.
 End Main.
 
@@ -1209,13 +1594,6 @@ Proof. intros (x & r & E & H) [r' E']. rewrite rev_app_distr, E in E'. inversion
 Lemma ends_cr_lf a : ~ ends_cr (a ++ [c_lf]).
 Proof. intros [r E]. rewrite rev_app_distr in E. inversion E. Qed.
 
-Lemma raw_ends_nonws d l1 r1 c l2 r2 : wf_delims d = true -> ends_nonws (unparse_seg d (Raw l1 r1 c l2 r2)).
-Proof.
-  intros Hwf. destruct (wf_delims_inv _ Hwf) as (_ & Hbe & _).
-  cbn [unparse_seg]. unfold raw_close_src. repeat apply ends_nonws_app.
-  destruct (end_delim_ok_inv _ Hbe) as (_ & _ & _ & _ & _ & _ & _ & H). exact H.
-Qed.
-
 Lemma line_base_not_nl d k (tr : str) pre : forallb is_blank tr = true ->
   ends_not_nl (pre ++ line_start d k ++ (match k with LStmt => body_line_set | LComment => body_line_comment end) ++ tr).
 Proof.
@@ -1280,6 +1658,472 @@ Qed.
 
 
 (* ========================================================================================== *)
+(* ========== the search loop over the specified Aho-Corasick enumeration finds the leftmost marker ========== *)
+
+(* [p] occurs at the end of [cs] *)
+Definition occ (p cs : str) : Prop := exists pre, cs = pre ++ p.
+Lemma prefix_rev_occ p cs : prefix_of (rev p) (rev cs) = true <-> occ p cs.
+Proof.
+  rewrite prefix_of_iff. split.
+  - intros [r E]. exists (rev r). rewrite <- (rev_involutive cs), E, rev_app_distr, rev_involutive. reflexivity.
+  - intros [pre ->]. exists (rev pre). apply rev_app_distr.
+Qed.
+
+(* ---------- the sorted pattern list ---------- *)
+Lemma in_insert_pat x y l : In x (insert_pat y l) <-> x = y \/ In x l.
+Proof.
+  induction l as [|q r IH]; cbn [insert_pat In].
+  - split; intros [H|H]; auto.
+  - destruct (snd (fst q) <? snd (fst y)); cbn [In]; [split; intros [H|H]; auto|].
+    rewrite IH. split; intros [H|[H|H]]; auto.
+Qed.
+Lemma in_fold_insert x l : In x (fold_right insert_pat [] l) <-> In x l.
+Proof. induction l as [|y l IH]; cbn [fold_right In]; [tauto|]. rewrite in_insert_pat, IH. split; intros [H|H]; auto. Qed.
+Lemma in_sorted_pats d rp len mk :
+  In (rp, len, mk) (sorted_pats d) <-> exists p, In (p, mk) (patterns d) /\ rp = rev p /\ len = lenZ p.
+Proof.
+  unfold sorted_pats. rewrite in_fold_insert, in_map_iff. split.
+  - intros [[p m] [E H]]. cbn [fst snd] in E. inversion E; subst. exists p. auto.
+  - intros (p & H & -> & ->). exists (p, mk). auto.
+Qed.
+
+Definition plen (q : pat) : Z := snd (fst q).
+Inductive sorted_desc : list pat -> Prop :=
+| sd_nil : sorted_desc []
+| sd_cons q l : (forall x, In x l -> plen x <= plen q) -> sorted_desc l -> sorted_desc (q :: l).
+Lemma insert_sorted y l : sorted_desc l -> sorted_desc (insert_pat y l).
+Proof.
+  induction 1 as [|q l Hq Hs IH]; cbn [insert_pat].
+  - constructor; [intros x []|constructor].
+  - fold (plen q). fold (plen y). destruct (plen q <? plen y) eqn:E.
+    + constructor; [|constructor; auto]. intros x [<-|Hx]; [lia|]. specialize (Hq x Hx). lia.
+    + constructor; auto. intros x Hx. apply in_insert_pat in Hx as [->|Hx]; [lia|auto].
+Qed.
+Lemma sorted_pats_sorted d : sorted_desc (sorted_pats d).
+Proof. unfold sorted_pats. induction (map _ (patterns d)) as [|y l IH]; cbn [fold_right]; [constructor|apply insert_sorted; auto]. Qed.
+
+(* ---------- one position of the scan: ac_cands ---------- *)
+Definition cand_ws (gb lb : str) (next : option Z) (q : pat) : option wsm :=
+  match snd q with
+  | MkLineStmt => if line_start_simple (skipZ (plen q) lb ++ gb) then Some WDefault else None
+  | _ => Some (ws_of next)
+  end.
+Definition pmatch (lb : str) (q : pat) : bool := prefix_of (fst (fst q)) lb.
+
+Lemma ac_body_alt gb lb e next best q :
+  ac_body gb lb e next best q =
+  if pmatch lb q then
+    match cand_ws gb lb next q with
+    | None => (best, false)
+    | Some w =>
+        let nm := (e - plen q, snd q, plen q + ws_len w, w) in
+        match best with
+        | Some (bs, _, _, _) => if bs <? e - plen q then (best, true) else (Some nm, false)
+        | None => (Some nm, false)
+        end
+    end
+  else (best, false).
+Proof. destruct q as [[rp len] mk]. unfold ac_body, pmatch, cand_ws, plen. cbn [fst snd]. destruct mk; reflexivity. Qed.
+
+Lemma ac_cands_cons gb lb e next best q ps :
+  ac_cands gb lb e next best (q :: ps) =
+  let '(b, stop) := ac_body gb lb e next best q in if stop then (b, true) else ac_cands gb lb e next b ps.
+Proof. reflexivity. Qed.
+
+Lemma ac_cands_none gb lb e next best ps : (forall q, In q ps -> pmatch lb q = false) ->
+  ac_cands gb lb e next best ps = (best, false).
+Proof.
+  induction ps as [|q ps IH]; intros H; [reflexivity|].
+  rewrite ac_cands_cons, ac_body_alt, (H q (or_introl eq_refl)). apply IH. intros x Hx. apply H. right; auto.
+Qed.
+
+Definition bstart (b : mtch) : Z := fst (fst (fst b)).
+
+Lemma ac_cands_keep gb lb e next b ps :
+  (forall q, In q ps -> pmatch lb q = true -> bstart b < e - plen q) ->
+  exists stop, ac_cands gb lb e next (Some b) ps = (Some b, stop).
+Proof.
+  induction ps as [|q ps IH]; intros H; [exists false; reflexivity|].
+  rewrite ac_cands_cons, ac_body_alt. destruct (pmatch lb q) eqn:Em.
+  - destruct (cand_ws gb lb next q) as [w|].
+    + destruct b as [[[bs m] l] w0]. specialize (H q (or_introl eq_refl) Em). cbn [bstart fst] in H.
+      cbv zeta. replace (bs <? e - plen q) with true by (symmetry; apply Z.ltb_lt; lia). exists true. reflexivity.
+    + apply IH. intros x Hx. apply H. right; auto.
+  - apply IH. intros x Hx. apply H. right; auto.
+Qed.
+
+(* the candidate is None or starts at [lt] *)
+Definition at_lt (lt : Z) (best : option mtch) : Prop := best = None \/ exists b, best = Some b /\ bstart b = lt.
+
+Lemma ac_cands_phase2 gb lb e next lt best ps : at_lt lt best ->
+  (forall q, In q ps -> pmatch lb q = true -> e - plen q = lt \/ cand_ws gb lb next q = None) ->
+  exists best', ac_cands gb lb e next best ps = (best', false) /\ at_lt lt best'.
+Proof.
+  revert best. induction ps as [|q ps IH]; intros best Hb H; [exists best; split; auto; reflexivity|].
+  rewrite ac_cands_cons, ac_body_alt. destruct (pmatch lb q) eqn:Em.
+  - destruct (H q (or_introl eq_refl) Em) as [Hs|Hn].
+    + destruct (cand_ws gb lb next q) as [w|].
+      * cbv zeta. destruct Hb as [->|(b & -> & Hbs)].
+        -- apply IH; [right; eexists; split; [reflexivity|exact Hs]|]. intros x Hx. apply H. right; auto.
+        -- destruct b as [[[bs m] l] w0]. cbn [bstart fst] in Hbs. subst bs.
+           replace (lt <? e - plen q) with false by (symmetry; apply Z.ltb_ge; lia).
+           apply IH; [right; eexists; split; [reflexivity|exact Hs]|]. intros x Hx. apply H. right; auto.
+      * apply IH; auto. intros x Hx. apply H. right; auto.
+    + rewrite Hn. apply IH; auto. intros x Hx. apply H. right; auto.
+  - apply IH; auto. intros x Hx. apply H. right; auto.
+Qed.
+
+(* the position at which the tag's own start delimiter ends *)
+Lemma ac_cands_phase3 gb lb e next lt (Dq : pat) w : forall ps best,
+  sorted_desc ps ->
+  pmatch lb Dq = true -> cand_ws gb lb next Dq = Some w -> e - plen Dq = lt ->
+  (forall q, In q ps -> pmatch lb q = true -> q = Dq \/ plen q < plen Dq) ->
+  ((at_lt lt best /\ In Dq ps) \/ best = Some (lt, snd Dq, plen Dq + ws_len w, w)) ->
+  exists stop, ac_cands gb lb e next best ps = (Some (lt, snd Dq, plen Dq + ws_len w, w), stop).
+Proof.
+  induction ps as [|q ps IH]; intros best Hsort HmD HwD HsD Hall Hst.
+  - destruct Hst as [[_ Hin] | ->]; [destruct Hin|]. exists false. reflexivity.
+  - inversion_clear Hsort as [|? ? Hle Hsort'].
+    rewrite ac_cands_cons, ac_body_alt.
+    assert (Hall' : forall x, In x ps -> pmatch lb x = true -> x = Dq \/ plen x < plen Dq) by (intros x Hx; apply Hall; right; auto).
+    destruct Hst as [[Hb Hin] | ->].
+    + (* the delimiter has not been processed yet *)
+      destruct (pmatch lb q) eqn:Em.
+      * destruct (Hall q (or_introl eq_refl) Em) as [->|Hlt].
+        -- rewrite HwD. cbv zeta. rewrite HsD.
+           destruct Hb as [->|(b & -> & Hbs)].
+           ++ apply IH; auto.
+           ++ destruct b as [[[bs m] l] w0]. cbn [bstart fst] in Hbs. subst bs.
+              replace (lt <? lt) with false by (symmetry; apply Z.ltb_irrefl). apply IH; auto.
+        -- exfalso. destruct Hin as [<-|Hin]; [lia|]. specialize (Hle Dq Hin). lia.
+      * destruct Hin as [<-|Hin]; [congruence|]. apply IH; auto.
+    + (* already the candidate *)
+      destruct (pmatch lb q) eqn:Em.
+      * destruct (cand_ws gb lb next q) as [w'|] eqn:Ew.
+        -- cbv zeta. destruct (Hall q (or_introl eq_refl) Em) as [->|Hlt].
+           ++ rewrite HsD. replace (lt <? lt) with false by (symmetry; apply Z.ltb_irrefl).
+              assert (w' = w) by congruence. subst w'. apply IH; auto.
+           ++ replace (lt <? e - plen q) with true by (symmetry; apply Z.ltb_lt; lia). exists true. reflexivity.
+        -- apply IH; auto.
+      * apply IH; auto.
+Qed.
+
+(* ---------- the loop ---------- *)
+Lemma ac_loop_unfold ps gb lb e rest best :
+  ac_loop ps gb lb e rest best =
+  let '(b, stop) := ac_cands gb lb e (hd_error rest) best ps in
+  if stop then b else match rest with [] => b | c :: r => ac_loop ps gb (c :: lb) (e + 1) r b end.
+Proof. destruct rest; reflexivity. Qed.
+
+Lemma rev_snoc (cs : str) a : rev (cs ++ [a]) = a :: rev cs.
+Proof. rewrite rev_app_distr. reflexivity. Qed.
+Lemma lenZ_snoc (cs : str) a : lenZ (cs ++ [a]) = lenZ cs + 1.
+Proof. rewrite lenZ_app. reflexivity. Qed.
+
+Lemma ac_loop_inv ps gb (I : option mtch -> Prop) : forall mid cs Y best,
+  I best ->
+  (forall m1 m2 b, mid = m1 ++ m2 -> m2 <> [] -> I b ->
+     exists b', ac_cands gb (rev (cs ++ m1)) (lenZ (cs ++ m1)) (hd_error (m2 ++ Y)) b ps = (b', false) /\ I b') ->
+  exists best', I best' /\
+    ac_loop ps gb (rev cs) (lenZ cs) (mid ++ Y) best = ac_loop ps gb (rev (cs ++ mid)) (lenZ (cs ++ mid)) Y best'.
+Proof.
+  induction mid as [|a m IH]; intros cs Y best Hb H.
+  - exists best. rewrite app_nil_r. auto.
+  - destruct (H [] (a :: m) best eq_refl ltac:(discriminate) Hb) as (b' & Hc & Hb').
+    rewrite app_nil_r in Hc.
+    rewrite ac_loop_unfold. cbn [app]. cbn [app] in Hc. rewrite Hc.
+    destruct (IH (cs ++ [a]) Y b' Hb') as (best' & Hi & E).
+    { intros m1 m2 b Em Hm2 Hib. destruct (H (a :: m1) m2 b) as (b2 & Hc2 & Hb2); auto.
+      - rewrite Em. reflexivity.
+      - exists b2. rewrite <- app_assoc. cbn [app]. auto. }
+    exists best'. split; auto. rewrite rev_snoc, lenZ_snoc in E. rewrite E. rewrite <- app_assoc. reflexivity.
+Qed.
+
+Lemma ac_loop_keep ps gb b : forall rest cs,
+  (forall m1 m2, rest = m1 ++ m2 -> forall q, In q ps -> pmatch (rev (cs ++ m1)) q = true -> bstart b < lenZ (cs ++ m1) - plen q) ->
+  ac_loop ps gb (rev cs) (lenZ cs) rest (Some b) = Some b.
+Proof.
+  induction rest as [|c r IH]; intros cs H; rewrite ac_loop_unfold.
+  - destruct (ac_cands_keep gb (rev cs) (lenZ cs) (hd_error []) b ps) as [stop E].
+    { intros q Hq Hm. specialize (H [] [] eq_refl q Hq). rewrite app_nil_r in H. auto. }
+    rewrite E. destruct stop; reflexivity.
+  - destruct (ac_cands_keep gb (rev cs) (lenZ cs) (hd_error (c :: r)) b ps) as [stop E].
+    { intros q Hq Hm. specialize (H [] (c :: r) eq_refl q Hq). rewrite app_nil_r in H. auto. }
+    rewrite E. destruct stop; [reflexivity|].
+    rewrite <- (rev_snoc cs c), <- (lenZ_snoc cs c). apply IH.
+    intros m1 m2 Er q Hq Hm. rewrite <- app_assoc in *. cbn [app] in *. apply (H (c :: m1) m2); auto. rewrite Er. reflexivity.
+Qed.
+
+(* ---------- facts about the configured patterns ---------- *)
+Lemma str_eqb_eq a : forall b, str_eqb a b = true <-> a = b.
+Proof.
+  induction a as [|x a IH]; intros [|y b]; cbn [str_eqb]; split; intros H; try discriminate; auto.
+  - apply andb_prop in H as [H1 H2]. apply Z.eqb_eq in H1. apply IH in H2. congruence.
+  - inversion H; subst. rewrite Z.eqb_refl. apply IH. reflexivity.
+Qed.
+Lemma mem_str_in s l : mem_str s l = true <-> In s l.
+Proof.
+  unfold mem_str. rewrite existsb_exists. split.
+  - intros (x & Hx & E). apply str_eqb_eq in E. subst. auto.
+  - intros H. exists s. split; auto. apply str_eqb_eq. reflexivity.
+Qed.
+
+Lemma delims_eqb_eq a b : delims_eqb a b = true -> a = b.
+Proof.
+  unfold delims_eqb. intros H. repeat (apply andb_prop in H as [H ?]).
+  destruct a, b; cbn in *.
+  repeat match goal with E : str_eqb _ _ = true |- _ => apply str_eqb_eq in E end. congruence.
+Qed.
+
+Lemma nodup_snoc {A} (l : list A) x : NoDup l -> ~ In x l -> NoDup (l ++ [x]).
+Proof.
+  induction 1 as [|y l Hy Hn IH]; intros Hx; cbn [app].
+  - constructor; [intros []|constructor].
+  - constructor.
+    + intros Hin. apply in_app_or in Hin as [Hin|[<-|[]]]; [auto|]. apply Hx. left; reflexivity.
+    + apply IH. intros Hin. apply Hx. right; auto.
+Qed.
+
+Definition nonempty_strs (l : list (str * bool)) : list str := filter (fun s => negb (is_nil s)) (map fst l).
+Lemma validated_starts_nodup l : forall acc, validated_starts l acc = true -> NoDup acc -> NoDup (acc ++ nonempty_strs l).
+Proof.
+  induction l as [|[s req] l IH]; intros acc H Hn; cbn [validated_starts] in H.
+  - unfold nonempty_strs. cbn. rewrite app_nil_r. auto.
+  - unfold nonempty_strs. cbn [map fst filter]. destruct (is_nil s) eqn:Es; cbn [negb].
+    + destruct req; [discriminate|]. apply IH; auto.
+    + destruct (mem_str s acc) eqn:Em; [discriminate|].
+      specialize (IH (acc ++ [s]) H). rewrite <- app_assoc in IH. apply IH.
+      apply nodup_snoc; auto. intros Hin. apply mem_str_in in Hin. congruence.
+Qed.
+
+Lemma patterns_nodup d : valid_config fixed d = true -> NoDup (map fst (patterns d)).
+Proof.
+  unfold valid_config. destruct (delims_eqb d default_delims) eqn:E.
+  - intros _. apply delims_eqb_eq in E. subst d.
+    change (map fst (patterns default_delims)) with [[123; 123]; [123; 37]; [123; 35]].
+    repeat constructor; cbn [In]; intuition discriminate.
+  - intros H. apply andb_prop in H as [_ H].
+    pose proof (validated_starts_nodup _ [] H (NoDup_nil _)) as Hn. cbn [app] in Hn.
+    unfold nonempty_strs in Hn. cbn [map fst filter] in Hn.
+    unfold patterns. cbn [validated_starts] in H.
+    destruct (is_nil (var_s d)) eqn:E1; [discriminate|].
+    destruct (mem_str (var_s d) []); [discriminate|].
+    destruct (is_nil (block_s d)) eqn:E2; [discriminate|].
+    destruct (mem_str (block_s d) ([] ++ [var_s d])); [discriminate|].
+    destruct (is_nil (com_s d)) eqn:E3; [discriminate|].
+    cbn [negb] in Hn.
+    rewrite !map_app. cbn [map fst app].
+    destruct (is_nil (line_s d)), (is_nil (line_c d)); cbn [negb map fst app] in *; exact Hn.
+Qed.
+
+Lemma patterns_same_marker d p m1 m2 : NoDup (map fst (patterns d)) -> In (p, m1) (patterns d) -> In (p, m2) (patterns d) -> m1 = m2.
+Proof.
+  induction (patterns d) as [|[q m] l IH]; cbn [map fst In]; intros Hn H1 H2; [contradiction|].
+  inversion Hn as [|? ? Hq Hn']; subst.
+  destruct H1 as [E1|H1], H2 as [E2|H2].
+  - congruence.
+  - inversion E1; subst. exfalso. apply Hq. apply in_map_iff. exists (p, m2). auto.
+  - inversion E2; subst. exfalso. apply Hq. apply in_map_iff. exists (p, m1). auto.
+  - auto.
+Qed.
+
+(* a start delimiter that would begin inside a text *)
+Lemma no_start_inside d t F pre s p mk : no_start_in d t F = true -> t = pre ++ s -> s <> [] ->
+  In (p, mk) (patterns d) -> prefix_of p (s ++ F) = false.
+Proof.
+  intros H -> Hs Hin. revert H. induction pre as [|a pre IH]; cbn [app no_start_in]; intros H.
+  - destruct s as [|c s']; [congruence|]. cbn [no_start_in] in H. apply andb_prop in H as [H _].
+    apply negb_true_iff in H. unfold starts_at in H.
+    destruct (prefix_of p ((c :: s') ++ F)) eqn:E; auto.
+    assert (existsb (fun pm => prefix_of (fst pm) ((c :: s') ++ F)) (patterns d) = true).
+    { apply existsb_exists. exists (p, mk). auto. }
+    congruence.
+  - apply andb_prop in H as [_ H]. auto.
+Qed.
+
+(* occurrences strictly inside another delimiter *)
+Lemma occurs_inside_false ex p D2 : D2 <> [] -> forall l b, l <> [] ->
+  occurs_inside ex p b (l ++ p ++ D2) = false ->
+  ex = true /\ exists l' a, l = l' ++ [a] /\ blank_or_nl a = false.
+Proof.
+  intros HD2. induction l as [|a l IH]; intros b Hl H; [congruence|].
+  cbn [app occurs_inside] in H. apply orb_false_elim in H as [H1 H2].
+  destruct l as [|a' l'].
+  - cbn [app] in H1. rewrite prefix_of_app in H1.
+    replace (lenZ p <? lenZ (p ++ D2)) with true in H1.
+    2:{ symmetry. apply Z.ltb_lt. rewrite lenZ_app. destruct D2; [congruence|]. rewrite lenZ_cons. pose proof (lenZ_nonneg D2). lia. }
+    cbn [andb] in H1. apply orb_false_elim in H1 as [H1 H3]. apply negb_false_iff in H1.
+    split; auto. exists [], a. auto.
+  - destruct (IH a ltac:(discriminate) H2) as (He & l'' & a0 & El & Ha).
+    split; auto. exists (a :: l''), a0. rewrite El. auto.
+Qed.
+
+Lemma infix_free_inv d p mp D mD l D2 : infix_free d = true -> In (p, mp) (patterns d) -> In (D, mD) (patterns d) ->
+  D = l ++ p ++ D2 -> l <> [] -> D2 <> [] ->
+  mp = MkLineStmt /\ exists l' a, l = l' ++ [a] /\ blank_or_nl a = false.
+Proof.
+  unfold infix_free. intros H Hp HD E Hl HD2. rewrite forallb_forall in H. specialize (H _ Hp).
+  rewrite forallb_forall in H. specialize (H _ HD). cbn [fst snd] in H. apply negb_true_iff in H.
+  rewrite E in H. destruct (occurs_inside_false _ p D2 HD2 l 0 Hl H) as (He & Hx).
+  split; auto. destruct mp; try discriminate. reflexivity.
+Qed.
+
+Lemma not_extended_inv d D R p mk r1 : not_extended d D R = true -> In (p, mk) (patterns d) ->
+  p = D ++ r1 -> r1 <> [] -> prefix_of p (D ++ R) = false.
+Proof.
+  unfold not_extended. intros H Hin -> Hr. rewrite forallb_forall in H. specialize (H _ Hin). cbn [fst] in H.
+  apply orb_prop in H as [H|H].
+  - apply negb_true_iff in H. exact H.
+  - exfalso. apply Z.leb_le in H. rewrite lenZ_app in H. destruct r1; [congruence|]. rewrite lenZ_cons in H. pose proof (lenZ_nonneg r1). lia.
+Qed.
+
+(* ---------- where a reported match can lie ---------- *)
+Section Finder.
+Variable d : delims.
+Variables (t D R : str) (mkD : marker) (rb : str).
+Hypothesis Hns : no_start_in d t (D ++ R) = true.
+
+(* a match ending at [t ++ X], [X] a prefix of [D ++ R], lies within [X] *)
+Lemma match_within X X2 q : D ++ R = X ++ X2 -> In q (sorted_pats d) -> pmatch (rev (t ++ X)) q = true ->
+  exists p l, q = (rev p, lenZ p, snd q) /\ In (p, snd q) (patterns d) /\ X = l ++ p.
+Proof.
+  intros EX Hq Hm. destruct q as [[rp len] mk]. apply in_sorted_pats in Hq as (p & Hin & -> & ->).
+  unfold pmatch in Hm. cbn [fst snd] in *. apply prefix_rev_occ in Hm as [pre E].
+  exists p. symmetry in E. destruct (app_eq_app _ _ _ _ E) as (l & [[E1 E2]|[E1 E2]]).
+  - exists l. auto.
+  - destruct l as [|a l'].
+    + exists []. rewrite app_nil_r in E1. cbn [app] in E2. subst. auto.
+    + exfalso. pose proof (no_start_inside d t (D ++ R) pre (a :: l') p mk Hns E1 ltac:(discriminate) Hin) as Hf.
+      rewrite EX in Hf. rewrite app_assoc, <- E2 in Hf. rewrite prefix_of_app in Hf. discriminate.
+Qed.
+
+(* inside the text itself nothing matches *)
+Lemma no_match_in_text m1 m2 q : t = m1 ++ m2 -> m2 <> [] -> In q (sorted_pats d) -> pmatch (rev m1) q = false.
+Proof.
+  intros Et Hm2 Hq. destruct (pmatch (rev m1) q) eqn:Hm; auto. exfalso.
+  destruct q as [[rp len] mk]. apply in_sorted_pats in Hq as (p & Hin & -> & ->).
+  unfold pmatch in Hm. cbn [fst] in Hm. apply prefix_rev_occ in Hm as [pre E].
+  assert (Et' : t = pre ++ (p ++ m2)) by (rewrite Et, E, <- app_assoc; reflexivity).
+  assert (Hne : p ++ m2 <> []) by (destruct p; [destruct m2; [congruence|discriminate]|discriminate]).
+  pose proof (no_start_inside d t (D ++ R) pre (p ++ m2) p mk Hns Et' Hne Hin) as Hf.
+  rewrite <- app_assoc, prefix_of_app in Hf. discriminate.
+Qed.
+End Finder.
+
+(* ---------- find_ac meets the specification of the start-marker search ---------- *)
+Lemma skipZ_rev_app (p X : str) : skipZ (lenZ p) (rev p ++ X) = X.
+Proof. rewrite <- (lenZ_rev p). apply skipZ_app. Qed.
+
+Lemma pattern_nonempty d p mk : forallb (fun pm => start_delim_ok (fst pm)) (patterns d) = true -> In (p, mk) (patterns d) -> p <> [].
+Proof. intros H Hin. rewrite forallb_forall in H. specialize (H _ Hin). cbn [fst] in H. destruct p; [discriminate|discriminate]. Qed.
+
+Lemma find_ac_none d rb t :
+  forallb (fun pm => start_delim_ok (fst pm)) (patterns d) = true ->
+  no_start_in d t [] = true -> find_ac d rb t = None.
+Proof.
+  intros Hne Hns. unfold find_ac.
+  destruct (ac_loop_inv (sorted_pats d) rb (fun b => b = None) t [] [] None eq_refl) as (best' & -> & E).
+  { intros m1 m2 b Et Hm2 ->. exists None. split; auto. cbn [app]. apply ac_cands_none.
+    intros q Hq. apply (no_match_in_text d t [] [] Hns m1 m2 q Et Hm2 Hq). }
+  rewrite app_nil_r in E. change (rev (@nil Z)) with (@nil Z) in E. change (lenZ (@nil Z)) with 0 in E. cbn [app] in E. rewrite E.
+  rewrite ac_loop_unfold. rewrite ac_cands_none; [reflexivity|].
+  intros q Hq. destruct (pmatch (rev t) q) eqn:Hm; auto. exfalso.
+  destruct q as [[rp len] mk]. apply in_sorted_pats in Hq as (p & Hin & -> & ->).
+  unfold pmatch in Hm. cbn [fst] in Hm. apply prefix_rev_occ in Hm as [pre Et].
+  pose proof (no_start_inside d t [] pre p p mk Hns Et (pattern_nonempty d p mk Hne Hin) Hin) as Hf.
+  rewrite (prefix_of_app p []) in Hf. discriminate.
+Qed.
+
+Lemma blank_or_nl_false_line_start a X : blank_or_nl a = false -> line_start_simple (a :: X) = false.
+Proof.
+  unfold blank_or_nl. intros H. cbn [line_start_simple].
+  destruct (a =? c_space) eqn:E1; [discriminate|]. destruct (a =? c_tab) eqn:E2; [discriminate|].
+  cbn [orb] in *. exact H.
+Qed.
+
+Lemma find_ac_found d rb t mk R :
+  valid_config fixed d = true -> infix_free d = true ->
+  forallb (fun pm => start_delim_ok (fst pm)) (patterns d) = true ->
+  In (marker_pat d mk, mk) (patterns d) ->
+  no_start_in d t (marker_pat d mk ++ R) = true ->
+  not_extended d (marker_pat d mk) R = true ->
+  (mk = MkLineStmt -> line_start_simple (rev t ++ rb) = true) ->
+  find_ac d rb (t ++ marker_pat d mk ++ R) =
+    Some (lenZ t, mk, lenZ (marker_pat d mk) + ws_len (mk_ws mk R), mk_ws mk R).
+Proof.
+  intros Hvc Hif Hne Hin Hns Hnx Hls. set (D := marker_pat d mk) in *. set (ps := sorted_pats d).
+  pose proof (patterns_nodup d Hvc) as Hnd.
+  unfold find_ac. fold ps.
+  (* phase 1: the text *)
+  destruct (ac_loop_inv ps rb (fun b => b = None) t [] (D ++ R) None eq_refl) as (b1 & -> & E1).
+  { intros m1 m2 b Et Hm2 ->. exists None. split; auto. cbn [app]. apply ac_cands_none.
+    intros q Hq. apply (no_match_in_text d t D R Hns m1 m2 q Et Hm2 Hq). }
+  change (rev (@nil Z)) with (@nil Z) in E1. change (lenZ (@nil Z)) with 0 in E1. cbn [app] in E1. rewrite E1. clear E1.
+  (* phase 2: inside the delimiter *)
+  destruct (ac_loop_inv ps rb (at_lt (lenZ t)) D t R None (or_introl eq_refl)) as (b2 & Hb2 & E2).
+  { intros D1 D2 b ED HD2 Hb. apply ac_cands_phase2; auto.
+    intros q Hq Hm.
+    destruct (match_within d t D R Hns D1 (D2 ++ R) q) as (p & l & Eq & Hp & EX); auto.
+    { rewrite ED, <- app_assoc. reflexivity. }
+    destruct l as [|a0 l0].
+    - left. rewrite Eq. unfold plen. cbn [fst snd]. cbn [app] in EX. rewrite EX, lenZ_app. lia.
+    - right. destruct (infix_free_inv d p (snd q) D mk (a0 :: l0) D2 Hif Hp Hin) as (Hmk & l' & a & El & Ha).
+      { rewrite ED, EX, <- app_assoc. reflexivity. } { discriminate. } { exact HD2. }
+      unfold cand_ws. rewrite Hmk. rewrite Eq. unfold plen. cbn [fst snd].
+      rewrite EX, El. rewrite !app_assoc, rev_app_distr, skipZ_rev_app.
+      rewrite rev_app_distr. cbn [rev app]. rewrite blank_or_nl_false_line_start by auto. reflexivity. }
+  rewrite E2. clear E2.
+  (* phase 3: the end of the delimiter *)
+  set (w := mk_ws mk R). set (Dq := (rev D, lenZ D, mk) : pat).
+  assert (HDq : In Dq ps) by (apply in_sorted_pats; exists D; auto).
+  assert (HmD : pmatch (rev (t ++ D)) Dq = true) by (unfold pmatch, Dq; cbn [fst]; apply prefix_rev_occ; exists t; reflexivity).
+  assert (HwD : cand_ws rb (rev (t ++ D)) (hd_error R) Dq = Some w).
+  { unfold cand_ws, Dq, plen, w, mk_ws. cbn [fst snd]. destruct mk; try reflexivity.
+    rewrite rev_app_distr, skipZ_rev_app. rewrite Hls; auto. }
+  assert (HsD : lenZ (t ++ D) - plen Dq = lenZ t) by (unfold plen, Dq; cbn [fst snd]; rewrite lenZ_app; lia).
+  destruct (ac_cands_phase3 rb (rev (t ++ D)) (lenZ (t ++ D)) (hd_error R) (lenZ t) Dq w ps b2 (sorted_pats_sorted d) HmD HwD HsD) as [stop E3].
+  { intros q Hq Hm.
+    destruct (match_within d t D R Hns D R q) as (p & l & Eq & Hp & EX); auto.
+    destruct l as [|a0 l0].
+    - left. cbn [app] in EX. subst p. rewrite Eq. unfold Dq. f_equal.
+      apply (patterns_same_marker d D (snd q) mk Hnd Hp Hin).
+    - right. rewrite Eq. unfold plen, Dq. cbn [fst snd]. assert (lenZ D = lenZ ((a0 :: l0) ++ p)) as -> by (rewrite <- EX; reflexivity). rewrite lenZ_app, lenZ_cons. pose proof (lenZ_nonneg l0). lia. }
+  { left. auto. }
+  unfold plen, Dq in E3. cbn [fst snd] in E3.
+  rewrite ac_loop_unfold. rewrite E3. destruct stop; [reflexivity|].
+  destruct R as [|c r]; [reflexivity|].
+  (* phase 4: after the delimiter *)
+  set (nm := (lenZ t, mk, lenZ D + ws_len w, w) : mtch).
+  rewrite <- (rev_snoc (t ++ D) c), <- (lenZ_snoc (t ++ D) c).
+  apply ac_loop_keep. intros m1 m2 Er q Hq Hm.
+  replace ((t ++ D) ++ [c]) with (t ++ D ++ [c]) in * by (rewrite <- app_assoc; reflexivity).
+  replace ((t ++ D ++ [c]) ++ m1) with (t ++ (D ++ c :: m1)) in * by (rewrite <- !app_assoc; reflexivity).
+  destruct (match_within d t D (c :: r) Hns (D ++ c :: m1) m2 q) as (p & l & Eq & Hp & EX); auto.
+  { rewrite Er, <- app_assoc. reflexivity. }
+  unfold nm, bstart. cbn [fst]. rewrite Eq. unfold plen. cbn [fst snd].
+  destruct l as [|a0 l0].
+  - exfalso. cbn [app] in EX.
+    pose proof (not_extended_inv d D (c :: r) p (snd q) (c :: m1) Hnx Hp (eq_sym EX) ltac:(discriminate)) as Hf.
+    rewrite <- EX in Hf. rewrite Er in Hf. replace (D ++ c :: m1 ++ m2) with ((D ++ c :: m1) ++ m2) in Hf by (rewrite <- app_assoc; reflexivity).
+    rewrite prefix_of_app in Hf. discriminate.
+  - rewrite lenZ_app. assert (lenZ (D ++ c :: m1) = lenZ ((a0 :: l0) ++ p)) as -> by (rewrite <- EX; reflexivity). rewrite lenZ_app, lenZ_cons. pose proof (lenZ_nonneg l0). lia.
+Qed.
+
+(* ---------- every well-formed delimiter configuration ---------- *)
+Theorem finder_ok_all d : wf_delims d = true -> finder_ok d.
+Proof.
+  intros Hwf. unfold wf_delims in Hwf.
+  apply andb_prop in Hwf as [Hwf Hne]. apply andb_prop in Hwf as [Hwf Hif]. apply andb_prop in Hwf as [Hwf _].
+  apply andb_prop in Hwf as [Hwf _]. apply andb_prop in Hwf as [Hwf _]. apply andb_prop in Hwf as [Hvc _].
+  destruct (delims_eqb d default_delims) eqn:E.
+  - apply delims_eqb_eq in E. subst. apply finder_ok_default.
+  - split.
+    + intros rb t H. unfold find_start_marker. rewrite E. apply find_ac_none; auto.
+    + intros rb t mk R Hin Hns Hnx Hls. unfold find_start_marker. rewrite E. apply find_ac_found; auto.
+Qed.
+
+
+(* ========================================================================================== *)
 Lemma all_supported_clip segs : all_supported segs -> all_supported (clip_segs segs).
 Proof.
   induction segs as [|X S IH]; intros H; [constructor|].
@@ -1291,9 +2135,6 @@ Proof.
   - replace (clip_segs (X :: Y :: S')) with (X :: clip_segs (Y :: S')) by (destruct X; reflexivity).
     constructor; [exact HX | apply IH; exact HS].
 Qed.
-
-Lemma after_all_supported d : wf_delims d = true -> forall X S, is_text X = false -> supported X -> seg_ok d X (unparse d S) -> after_ok d X S.
-Proof. intros Hwf X S Ht Hs _. destruct X; cbn [supported] in Hs; try contradiction. apply after_ok_tag; auto. Qed.
 
 Theorem texts_verbatim_supported (d : delims) (w : wsconfig) (segs : list seg) :
   finder_ok d -> all_supported segs -> wf_case d (keep w) segs = true ->
@@ -1316,8 +2157,135 @@ Proof.
   { unfold expected, effective. rewrite (normalize_wf d segs true false Hwfs). reflexivity. }
   rewrite Hexp. unfold tokenize. cbn [wsc c]. rewrite Hsrc.
   pose proof (toks_segs c HF eq_refl Hwfd
-                (fun X Rs rbm offm _ Hs _ => hsm_seg c X Rs rbm offm eq_refl Hwfd Hs)
-                (after_all_supported d Hwfd)
+                (fun X Rs rbm offm _ Hs Hok => hsm_seg c X Rs rbm offm eq_refl Hwfd Hs Hok)
                 (length E) E (le_n _) (S (length (unparse d E))) None [] 0 true HsE I HwE (or_intror eq_refl) (Nat.lt_succ_diag_r _)) as H.
   unfold result_ok in H. cbn [tail_of apply_tail] in H. exact H.
 Qed.
+
+Lemma all_supported_any segs : all_supported segs.
+Proof. induction segs as [|X S IH]; constructor; auto. destruct X; cbn; auto. Qed.
+
+(* the theorem, for every delimiter configuration whose start-marker search meets its specification *)
+Theorem texts_verbatim_finder_proof (d : delims) (w : wsconfig) (segs : list seg) :
+  finder_ok d -> wf_case d (keep w) segs = true ->
+  exists its, tokenize {| dl := d; wsc := w; qk := fixed |} (unparse d segs) = (its, FOk) /\
+              view its = expected (st_of w) segs.
+Proof. intros HF H. apply texts_verbatim_supported; auto. apply all_supported_any. Qed.
+
+Theorem texts_verbatim_default_proof (w : wsconfig) (segs : list seg) :
+  wf_case default_delims (keep w) segs = true ->
+  exists its, tokenize {| dl := default_delims; wsc := w; qk := fixed |} (unparse default_delims segs) = (its, FOk) /\
+              view its = expected (st_of w) segs.
+Proof. apply texts_verbatim_finder_proof. apply finder_ok_default. Qed.
+
+(* ---------- no configuration accepted by build() can make the lexer panic ---------- *)
+Lemma valid_config_com_e d : valid_config fixed d = true -> is_nil (com_e d) = false.
+Proof.
+  unfold valid_config. destruct (delims_eqb d default_delims) eqn:E.
+  - intros _. unfold delims_eqb in E. repeat (apply andb_prop in E as [E ?]).
+    destruct (com_e d); [discriminate|reflexivity].
+  - cbn [q_empty_end fixed orb]. intros H. apply andb_prop in H as [H _]. apply andb_prop in H as [_ H].
+    destruct (com_e d); [discriminate|reflexivity].
+Qed.
+
+Lemma raw_finish_cont c ws rb0 acc l off0 chunk nx :
+  raw_finish c ws rb0 acc l off0 = Some (chunk, nx) -> exists p tl, nx = Cont p tl.
+Proof.
+  unfold raw_finish. destruct (skip_basic_tag _ _ _ _) as [[e wn]|]; [|discriminate].
+  intros E. inversion E. unfold cont_of. eauto.
+Qed.
+
+Lemma raw_search_cont c ws rb0 off0 : forall l acc wait chunk nx,
+  raw_search c ws rb0 acc l off0 wait = Some (chunk, nx) -> exists p tl, nx = Cont p tl.
+Proof.
+  induction l as [|a r IH]; intros acc wait chunk nx; rewrite raw_search_unfold; cbv zeta.
+  - destruct wait; [|discriminate]. destruct (prefix_of _ _); [|discriminate].
+    destruct (raw_finish c ws rb0 acc [] off0) as [[ch n]|] eqn:E; [|discriminate].
+    intros E'. inversion E'; subst. eapply raw_finish_cont; eauto.
+  - destruct wait.
+    + destruct (prefix_of _ _).
+      * destruct (raw_finish c ws rb0 acc (a :: r) off0) as [[ch n]|] eqn:E.
+        -- intros E'. inversion E'; subst. eapply raw_finish_cont; eauto.
+        -- apply IH.
+      * apply IH.
+    + apply IH.
+Qed.
+
+Lemma handle_start_marker_no_panic c mk len pm : is_nil (com_e (dl c)) = false ->
+  snd (handle_start_marker c mk len pm) <> Stop FPanic.
+Proof.
+  intros Hc. destruct pm as [[rb after] off]. unfold handle_start_marker. destruct mk.
+  - destruct (advance len (rb, after, off)) as [[rb1 rest1] off1]. cbn [snd].
+    destruct (scan c SVar Normal 0 rb1 rest1 off1) as [? ? ? []| | |]; cbn; congruence.
+  - destruct (skip_basic_tag _ _ _ _) as [[raw ws]|].
+    + destruct (advance (raw + len) (rb, after, off)) as [[rb1 rest1] off1].
+      destruct (raw_search c ws rb1 [] rest1 off1 0) as [[chunk nx]|] eqn:E; cbn [snd]; [|congruence].
+      destruct (raw_search_cont _ _ _ _ _ _ _ _ _ E) as (p & tl & ->). congruence.
+    + destruct (advance len (rb, after, off)) as [[rb1 rest1] off1]. cbn [snd].
+      destruct (scan c SBlock Normal 0 rb1 rest1 off1) as [? ? ? []| | |]; cbn; congruence.
+  - rewrite Hc. destruct (find_sub _ _ _); cbn [snd]; unfold cont_of; congruence.
+  - destruct (advance len (rb, after, off)) as [[rb1 rest1] off1]. cbn [snd].
+    destruct (scan c SLine Normal 0 rb1 rest1 off1) as [? ? ? []| | |]; cbn; congruence.
+  - destruct (skip_nl _ _). cbn [snd]. congruence.
+Qed.
+
+Lemma root_step_no_panic c p tl : is_nil (com_e (dl c)) = false -> snd (root_step c p tl) <> Stop FPanic.
+Proof.
+  intros Hc. unfold root_step. destruct (if tl then skip_whitespace p else p) as [[rb rest] off].
+  destruct (find_start_marker (dl c) rb rest) as [[[[start mk] len] w]|]; [|cbn; congruence].
+  pose proof (handle_start_marker_no_panic c mk len (advance start (rb, rest, off)) Hc) as H.
+  destruct (handle_start_marker c mk len (advance start (rb, rest, off))) as [its nx]. exact H.
+Qed.
+
+Lemma toks_no_panic c : is_nil (com_e (dl c)) = false -> forall fuel p tl, snd (toks fuel c p tl) <> FPanic.
+Proof.
+  intros Hc. induction fuel as [|f IH]; intros p tl; [cbn; congruence|].
+  destruct p as [[rb rest] off]. destruct rest as [|x r]; [cbn; congruence|].
+  rewrite toks_unfold. pose proof (root_step_no_panic c (rb, x :: r, off) tl Hc) as H.
+  destruct (root_step c (rb, x :: r, off) tl) as [its [e|p' tl']]; cbn [snd] in *.
+  - congruence.
+  - specialize (IH p' tl'). destruct (toks f c p' tl') as [r0 e]. cbn [snd] in *. exact IH.
+Qed.
+
+Theorem no_panic_proof (d : delims) (w : wsconfig) (src : str) :
+  match tokenize_checked {| dl := d; wsc := w; qk := fixed |} src with
+  | Ok (_, e) => e <> FPanic
+  | Err code => code = E_InvalidDelimiter
+  | _ => False
+  end.
+Proof.
+  unfold tokenize_checked. cbn [qk dl]. destruct (valid_config fixed d) eqn:E; [|reflexivity].
+  pose proof (toks_no_panic {| dl := d; wsc := w; qk := fixed |} (valid_config_com_e d E)) as H.
+  unfold tokenize. destruct (toks _ _ _ _) as [its e] eqn:Et. specialize (H (S (length (strip_source w src))) ([], strip_source w src, 0) false).
+  cbn [wsc] in Et. rewrite Et in H. exact H.
+Qed.
+
+(* a text without start delimiters is one verbatim chunk *)
+Theorem lookalike_is_text_proof (d : delims) (w : wsconfig) (t : str) :
+  finder_ok d -> keep w = true -> wf_case d true [Text t] = true ->
+  exists its, tokenize {| dl := d; wsc := w; qk := fixed |} t = (its, FOk) /\ view its = [EText t].
+Proof.
+  intros HF Hk Hwf.
+  assert (Hwf' : wf_case d (keep w) [Text t] = true) by (rewrite Hk; exact Hwf).
+  destruct (texts_verbatim_finder_proof d w [Text t] HF Hwf') as (its & E & V).
+  cbn [unparse unparse_seg] in E. rewrite app_nil_r in E. exists its. split; auto.
+  rewrite V. unfold wf_case in Hwf. apply andb_prop in Hwf as [Hwf _]. apply andb_prop in Hwf as [_ Hwf].
+  cbn [wf_segs] in Hwf. apply andb_prop in Hwf as [Hwf _]. apply andb_prop in Hwf as [Hwf _]. apply andb_prop in Hwf as [_ Hne].
+  unfold expected, effective. cbn [st_of keep_trailing_newline]. rewrite Hk.
+  destruct t as [|a t']; [discriminate|]. reflexivity.
+Qed.
+
+(* ---------- the theorems without the search hypothesis ---------- *)
+Lemma wf_case_delims d k segs : wf_case d k segs = true -> wf_delims d = true.
+Proof. unfold wf_case. intros H. apply andb_prop in H as [H _]. apply andb_prop in H as [H _]. exact H. Qed.
+
+Theorem texts_verbatim_proof (d : delims) (w : wsconfig) (segs : list seg) :
+  wf_case d (keep w) segs = true ->
+  exists its, tokenize {| dl := d; wsc := w; qk := fixed |} (unparse d segs) = (its, FOk) /\
+              view its = expected (st_of w) segs.
+Proof. intros H. apply texts_verbatim_finder_proof; auto. apply finder_ok_all. eapply wf_case_delims; eauto. Qed.
+
+Theorem lookalike_proof (d : delims) (w : wsconfig) (t : str) :
+  keep w = true -> wf_case d true [Text t] = true ->
+  exists its, tokenize {| dl := d; wsc := w; qk := fixed |} t = (its, FOk) /\ view its = [EText t].
+Proof. intros Hk H. apply lookalike_is_text_proof; auto. apply finder_ok_all. eapply wf_case_delims; eauto. Qed.
